@@ -217,6 +217,49 @@ const TEMPLATES: &[(&str, Option<&str>, &str)] = &[
         "h := fn x: int -> int do\n    x + 1\nend\n\nstart :: fn do\n    print(h(1))\n    h = fn x: int -> int do\n        x * 2\n    end\n    print(h(2))\nend\n",
     ),
     (
+        "narrow blob assigned to a variable holding a wider blob, wide field read afterwards",
+        None,
+        "Zn :: blob {\n    a: int,\n}\n\nZw :: blob {\n    a: int,\n    b: int,\n}\n\nstart :: fn do\n    v := Zw { a: 1, b: 2 }\n    v = Zn { a: 10 }\n    print(v.a + v.b)\nend\n",
+    ),
+    (
+        "if-expression whose later arm is a narrower blob, wide field read afterwards",
+        None,
+        "Zn :: blob {\n    a: int,\n}\n\nZw :: blob {\n    a: int,\n    b: int,\n}\n\npickb :: fn c: bool ->\n    if c do\n        Zw { a: 1, b: 2 }\n    else do\n        Zn { a: 10 }\n    end\nend\n\nstart :: fn do\n    print(pickb(false).b + 1)\nend\n",
+    ),
+    (
+        "list of a wide and a narrow blob, wide field read from every element",
+        None,
+        "Zn :: blob {\n    a: int,\n}\n\nZw :: blob {\n    a: int,\n    b: int,\n}\n\nstart :: fn do\n    l := [Zw { a: 1, b: 2 }]\n    list.push(l, Zn { a: 3 })\n    list.for_each(l, fn e do\n        print(e.b + 1)\n    end)\nend\n",
+    ),
+    (
+        "method reading a field of self that the blob lacks",
+        None,
+        "B :: blob {\n    n: int,\n    get: fn -> int,\n}\n\nstart :: fn do\n    b := B { n: 1, get: fn -> int do\n        self.m + 1\n    end }\n    print(b.get())\nend\n",
+    ),
+    (
+        "method using a field of self at another type",
+        None,
+        "B :: blob {\n    n: int,\n    get: fn -> str,\n}\n\nstart :: fn do\n    b := B { n: 1, get: fn -> str do\n        self.n + \"s\"\n    end }\n    print(b.get())\nend\n",
+    ),
+    (
+        "un-annotated recursive function whose own result is used at a type contradicting the definition",
+        None,
+        "f :: fn n ->\n    if n <= 0 do\n        ret \"s\"\n    end\n    if 1.5 <= f(n - 1) do\n        print(1)\n    end\n    \"t\"\nend\n\nstart :: fn do\n    print(f(2))\nend\n",
+    ),
+    (
+        "un-annotated recursive function passing another type to itself",
+        None,
+        "f :: fn n, v ->\n    if n <= 0 do\n        ret v + 1\n    end\n    f(n - 1, \"s\")\nend\n\nstart :: fn do\n    print(f(2, 1))\nend\n",
+    ),
+    ("deferred tuple comparison applied to a str element", None, "lt :: fn p ->\n    (p, 1) < (6, 1)\nend\n\nstart :: fn do\n    s := \"x\"\n    print(lt(s))\nend\n"),
+    ("deferred tuple subtraction applied to a str element", None, "sub :: fn p ->\n    (p, 1) - (6, 1)\nend\n\nstart :: fn do\n    s := \"x\"\n    print(sub(s))\nend\n"),
+    ("tuple addition with string elements (sound: concatenation)", None, "start :: fn do\n    t := (1, \"a\") + (2, \"b\")\n    print(t)\n    u := t\n    u += (1, \"c\")\n    print(u)\nend\n"),
+    (
+        "fn field declared to return a later-declared blob given a fn returning a str",
+        None,
+        "Shape :: blob {\n    origin: fn int -> Point,\n}\n\nPoint :: blob {\n    x: int,\n}\n\nstart :: fn do\n    s := Shape { origin: fn k: int -> str do\n        ret \"nowhere\"\n    end }\n    print(s.origin(2).x + 1)\nend\n",
+    ),
+    (
         "case binding of a generic Maybe used after unification with another payload",
         None,
         "start :: fn do\n    m := Maybe.None\n    case m do\n        Just v -> print(v + 1) end\n        None -> print(0) end\n    end\n    n := Maybe.Just \"s\"\n    print(n == n)\nend\n",
